@@ -765,4 +765,302 @@ theorem bindRun_agree (h : List (List TStmt)) :
       simp only [bindRun, bindSpec]
       exact ⟨by rw [e1, e2], e3, h2⟩
 
+
+/-! ## Layer 6: the import cache -/
+theorem execI_append (cfg : ModCfg) (a b : List IStmt) (s : ISt) :
+    execI cfg (a ++ b) s = execI cfg b (execI cfg a s) := by
+  simp [execI, List.foldl_append]
+
+theorem impRun_keep (cfg : ModCfg) (seed : List Nat) (h : List (List IStmt)) :
+    ∀ s, impRun false cfg seed s h = execI cfg h.flatten s := by
+  induction h with
+  | nil => intro s; rfl
+  | cons l rest ih =>
+    intro s
+    simp only [impRun, startRun, List.flatten_cons, execI_append]
+    exact ih _
+
+/-! ## Layer 7: slot-indexed globals -/
+theorem getD_append_none (a : Slots) (k i : Nat) :
+    (a ++ List.replicate k none).getD i none = a.getD i none := by
+  simp only [List.getD_eq_getElem?_getD]
+  by_cases h : i < a.length
+  · rw [List.getElem?_append_left h]
+  · have h' : a.length ≤ i := Nat.le_of_not_lt h
+    rw [List.getElem?_append_right h', List.getElem?_eq_none_iff.mpr h']
+    cases hr : (List.replicate k (none : Option Int))[i - a.length]? with
+    | none => rfl
+    | some v =>
+      have := List.mem_of_getElem? hr
+      rw [List.mem_replicate] at this
+      rw [this.2]
+      rfl
+
+theorem eval_pad (a : Slots) (k : Nat) (e : SExpr) : e.eval (a ++ List.replicate k none) = e.eval a := by
+  induction e with
+  | lit v => rfl
+  | slot i => simp only [SExpr.eval, getD_append_none]
+  | add x y ihx ihy => simp only [SExpr.eval, ihx, ihy]
+
+theorem exec_pad (t : SStmt) (a : Slots) (vs : List Int) (k : Nat) (h : t.scoped a.length = true) :
+    t.exec (a ++ List.replicate k none, vs) = ((t.exec (a, vs)).1 ++ List.replicate k none, (t.exec (a, vs)).2) ∧
+    (t.exec (a, vs)).1.length = a.length := by
+  cases t with
+  | set i e =>
+    simp only [SStmt.scoped, Bool.and_eq_true, decide_eq_true_eq] at h
+    simp only [SStmt.exec, eval_pad, List.length_set, and_true]
+    rw [List.set_append_left _ _ h.1]
+  | expr e => simp only [SStmt.exec, eval_pad, and_true]
+
+theorem scoped_mono_e (e : SExpr) (n m : Nat) (hnm : n ≤ m) (h : e.scoped n = true) : e.scoped m = true := by
+  induction e with
+  | lit v => rfl
+  | slot i => simp only [SExpr.scoped, decide_eq_true_eq] at h ⊢; omega
+  | add x y ihx ihy =>
+    simp only [SExpr.scoped, Bool.and_eq_true] at h ⊢
+    exact ⟨ihx h.1, ihy h.2⟩
+
+theorem execS_pad (l : List SStmt) : ∀ (a : Slots) (vs : List Int) (k : Nat), l.all (·.scoped a.length) = true →
+    execS l (a ++ List.replicate k none, vs) = ((execS l (a, vs)).1 ++ List.replicate k none, (execS l (a, vs)).2) ∧
+    (execS l (a, vs)).1.length = a.length := by
+  induction l with
+  | nil => intro a vs k _; exact ⟨rfl, rfl⟩
+  | cons t rest ih =>
+    intro a vs k h
+    simp only [List.all_cons, Bool.and_eq_true] at h
+    obtain ⟨e1, e2⟩ := exec_pad t a vs k h.1
+    simp only [execS, List.foldl_cons] at ih ⊢
+    rw [e1]
+    have := ih (t.exec (a, vs)).1 (t.exec (a, vs)).2 k (by rw [e2]; exact h.2)
+    rw [e2] at this
+    exact this
+
+theorem execS_append (a b : List SStmt) (s : SSt) : execS (a ++ b) s = execS b (execS a s) := by
+  simp [execS, List.foldl_append]
+
+theorem reloadBySlot_grow (names : List Nat) (a : Slots) (h : a.length ≤ names.length) :
+    reloadBySlot names a = a ++ List.replicate (names.length - a.length) none := by
+  simp only [reloadBySlot, copyInto, List.length_replicate, List.drop_replicate]
+  rw [List.take_of_length_le h]
+
+theorem allStmts_cons (p : SPiece) (rest : List SPiece) : allStmts (p :: rest) = p.stmts ++ allStmts rest := by
+  simp [allStmts]
+
+theorem allDecls_cons (p : SPiece) (rest : List SPiece) : allDecls (p :: rest) = p.decls ++ allDecls rest := by
+  simp [allDecls]
+
+theorem slotRun_pad (N : Nat) (h : List SPiece) : ∀ (names : List Nat) (a : Slots) (vs : List Int),
+    a.length = names.length → scopedFrom names.length h = true → names.length + (allDecls h).length ≤ N →
+    (slotRun reloadBySlot names (a, vs) h).2.1 ++ List.replicate (N - (names.length + (allDecls h).length)) none
+      = (execS (allStmts h) (a ++ List.replicate (N - a.length) none, vs)).1 ∧
+    (slotRun reloadBySlot names (a, vs) h).2.2 = (execS (allStmts h) (a ++ List.replicate (N - a.length) none, vs)).2 ∧
+    (slotRun reloadBySlot names (a, vs) h).2.1.length = names.length + (allDecls h).length ∧
+    (slotRun reloadBySlot names (a, vs) h).1 = names ++ allDecls h := by
+  induction h with
+  | nil =>
+    intro names a vs ha _ _
+    simp [slotRun, allStmts, allDecls, execS, ha]
+  | cons p rest ih =>
+    intro names a vs ha hs hN
+    simp only [scopedFrom, Bool.and_eq_true] at hs
+    rw [allDecls_cons, List.length_append] at hN
+    have hle : a.length ≤ (names ++ p.decls).length := by rw [List.length_append]; omega
+    have hgrow := reloadBySlot_grow (names ++ p.decls) a hle
+    have hd : (names ++ p.decls).length - a.length = p.decls.length := by rw [List.length_append]; omega
+    rw [hd] at hgrow
+    have hlen1 : (a ++ List.replicate p.decls.length (none : Option Int)).length = names.length + p.decls.length := by
+      rw [List.length_append, List.length_replicate, ha]
+    have hsc : p.stmts.all (·.scoped (a ++ List.replicate p.decls.length (none : Option Int)).length) = true := by
+      rw [hlen1]; exact hs.1
+    obtain ⟨e1, e2⟩ := execS_pad p.stmts (a ++ List.replicate p.decls.length none) vs
+      (N - (names.length + p.decls.length)) hsc
+    have hsplit : a ++ List.replicate (N - a.length) (none : Option Int)
+        = (a ++ List.replicate p.decls.length none) ++ List.replicate (N - (names.length + p.decls.length)) none := by
+      rw [List.append_assoc, List.replicate_append_replicate]
+      congr 2
+      omega
+    have hlen2 := e2
+    rw [hlen1] at hlen2
+    have hnl : (names ++ p.decls).length = names.length + p.decls.length := List.length_append
+    obtain ⟨i1, i2, i3, i4⟩ := ih (names ++ p.decls) (execS p.stmts (a ++ List.replicate p.decls.length none, vs)).1
+      (execS p.stmts (a ++ List.replicate p.decls.length none, vs)).2 (by rw [hlen2, hnl]) (by rw [hnl]; exact hs.2)
+      (by rw [hnl]; omega)
+    simp only [slotRun, hgrow, allStmts_cons, allDecls_cons, execS_append]
+    rw [hsplit, e1]
+    rw [hlen2] at i1 i2
+    rw [hnl] at i1 i3
+    refine ⟨?_, i2, ?_, ?_⟩
+    · rw [List.length_append, ← Nat.add_assoc]; exact i1
+    · rw [List.length_append, ← Nat.add_assoc]; exact i3
+    · rw [i4, List.append_assoc]
+
+
+/-- invariant of the import cache: `pending` = modules whose body is running (logged, not cached yet) -/
+def CacheInv (seed pending : List Nat) (s : ISt) : Prop :=
+  s.log.Nodup ∧ (∀ x ∈ s.log, (x ∈ s.cache ∨ x ∈ pending) ∧ x ∉ seed) ∧ (∀ x ∈ seed, x ∈ s.cache)
+
+theorem loadMod_inv (cfg : ModCfg) (seed : List Nat) (m : Nat) : ∀ (s : ISt) (pending : List Nat),
+    CacheInv seed pending s → (∀ x ∈ pending, m < x) → CacheInv seed pending (loadMod cfg m s) := by
+  induction m with
+  | zero =>
+    intro s pending inv hp
+    unfold loadMod
+    split
+    · exact inv
+    · rename_i hc
+      have hc' : 0 ∉ s.cache := by simpa using hc
+      obtain ⟨i1, i2, i3⟩ := inv
+      have hnl : 0 ∉ s.log := fun hl => by
+        rcases (i2 0 hl).1 with h | h
+        · exact hc' h
+        · exact Nat.lt_irrefl 0 (hp 0 h)
+      refine ⟨?_, ?_, ?_⟩
+      · simp only [List.nodup_append, List.nodup_cons, List.not_mem_nil, not_false_eq_true, List.nodup_nil, and_self,
+          List.mem_cons, or_false, true_and]
+        exact ⟨i1, fun a ha b hb => by subst hb; intro e; subst e; exact hnl ha⟩
+      · intro x hx
+        simp only [List.mem_append, List.mem_cons, List.not_mem_nil, or_false] at hx
+        rcases hx with hx | hx
+        · refine ⟨?_, (i2 x hx).2⟩
+          rcases (i2 x hx).1 with h | h
+          · exact Or.inl (List.mem_cons_of_mem _ h)
+          · exact Or.inr h
+        · subst hx
+          exact ⟨Or.inl (List.mem_cons_self), fun hs => hc' (i3 _ hs)⟩
+      · intro x hx; exact List.mem_cons_of_mem _ (i3 x hx)
+  | succ m ih =>
+    intro s pending inv hp
+    unfold loadMod
+    split
+    · exact inv
+    · rename_i hc
+      have hc' : (m + 1) ∉ s.cache := by simpa using hc
+      obtain ⟨i1, i2, i3⟩ := inv
+      have hnl : (m + 1) ∉ s.log := fun hl => by
+        rcases (i2 _ hl).1 with h | h
+        · exact hc' h
+        · exact Nat.lt_irrefl _ (hp _ h)
+      have inv1 : CacheInv seed ((m + 1) :: pending) { s with log := s.log ++ [m + 1] } := by
+        refine ⟨?_, ?_, i3⟩
+        · simp only [List.nodup_append, List.nodup_cons, List.not_mem_nil, not_false_eq_true, List.nodup_nil, and_self,
+            List.mem_cons, or_false, true_and]
+          exact ⟨i1, fun a ha b hb => by subst hb; intro e; subst e; exact hnl ha⟩
+        · intro x hx
+          simp only [List.mem_append, List.mem_cons, List.not_mem_nil, or_false] at hx
+          rcases hx with hx | hx
+          · refine ⟨?_, (i2 x hx).2⟩
+            rcases (i2 x hx).1 with h | h
+            · exact Or.inl h
+            · exact Or.inr (List.mem_cons_of_mem _ h)
+          · subst hx
+            exact ⟨Or.inr (List.mem_cons_self), fun hs => hc' (i3 _ hs)⟩
+      have hp1 : ∀ x ∈ (m + 1) :: pending, m < x := by
+        intro x hx
+        simp only [List.mem_cons] at hx
+        rcases hx with hx | hx
+        · omega
+        · have := hp x hx; omega
+      have inv2 : CacheInv seed ((m + 1) :: pending)
+          (if cfg.dep (m + 1) then loadMod cfg m { s with log := s.log ++ [m + 1] } else { s with log := s.log ++ [m + 1] }) := by
+        split
+        · exact ih _ _ inv1 hp1
+        · exact inv1
+      obtain ⟨j1, j2, j3⟩ := inv2
+      refine ⟨j1, ?_, fun x hx => List.mem_cons_of_mem _ (j3 x hx)⟩
+      intro x hx
+      refine ⟨?_, (j2 x hx).2⟩
+      rcases (j2 x hx).1 with h | h
+      · exact Or.inl (List.mem_cons_of_mem _ h)
+      · simp only [List.mem_cons] at h
+        rcases h with h | h
+        · subst h; exact Or.inl (List.mem_cons_self)
+        · exact Or.inr h
+
+theorem exec_inv (cfg : ModCfg) (seed : List Nat) (t : IStmt) (s : ISt) (inv : CacheInv seed [] s) :
+    CacheInv seed [] (t.exec cfg s) := by
+  cases t with
+  | imp h m => exact loadMod_inv cfg seed m s [] inv (fun _ hx => by cases hx)
+  | bump h d => simp only [IStmt.exec]; split <;> exact inv
+  | get hs => exact inv
+  | below h => simp only [IStmt.exec]; split <;> exact inv
+  | keep j h => exact inv
+
+theorem execI_inv (cfg : ModCfg) (l : List IStmt) : ∀ (s : ISt) (seed : List Nat), CacheInv seed [] s →
+    CacheInv seed [] (execI cfg l s) := by
+  induction l with
+  | nil => intro s seed inv; exact inv
+  | cons t rest ih => intro s seed inv; exact ih _ _ (exec_inv cfg seed t s inv)
+
+
+theorem lastNamed_absent (names : List Nat) (a : Slots) (nm : Nat) (h : nm ∉ names) : lastNamed names a nm = none := by
+  simp only [lastNamed, List.findSome?_eq_none_iff, List.mem_reverse]
+  intro p hp
+  have := (List.of_mem_zip (show (p.1, p.2) ∈ names.zip a from hp)).1
+  split
+  · rename_i e; subst e; exact absurd this h
+  · rfl
+
+theorem lastNamed_cons (x : Nat) (xs : List Nat) (v : Option Int) (vs : Slots) (nm : Nat) :
+    lastNamed (x :: xs) (v :: vs) nm = (lastNamed xs vs nm).or (if x = nm then v else none) := by
+  simp only [lastNamed, List.zip_cons_cons, List.reverse_cons, List.findSome?_append, List.findSome?_cons,
+    List.findSome?_nil]
+  cases (if x = nm then v else none) <;> rfl
+
+theorem lastNamed_nodup (names : List Nat) : ∀ (a : Slots) (i : Nat) (hi : i < names.length), names.Nodup →
+    lastNamed names a names[i] = a.getD i none := by
+  induction names with
+  | nil => intro a i hi; cases hi
+  | cons x xs ih =>
+    intro a i hi hn
+    rw [List.nodup_cons] at hn
+    cases a with
+    | nil => simp [lastNamed]
+    | cons v vs =>
+      rw [lastNamed_cons]
+      cases i with
+      | zero =>
+        simp only [List.getElem_cons_zero, ↓reduceIte, List.getD_cons_zero]
+        rw [lastNamed_absent xs vs x hn.1]
+        rfl
+      | succ j =>
+        have hj : j < xs.length := by simpa using hi
+        simp only [List.getElem_cons_succ, List.getD_cons_succ]
+        rw [ih vs j hj hn.2]
+        have hne : x ≠ xs[j] := fun e => hn.1 (e ▸ List.getElem_mem hj)
+        simp only [hne, ↓reduceIte, Option.or_none]
+
+theorem reloadByName_eq_of_nodup (names : List Nat) (a : Slots) (hn : names.Nodup) (ha : a.length ≤ names.length) :
+    reloadByName names a = reloadBySlot names a := by
+  rw [reloadBySlot_grow names a ha]
+  apply List.ext_getElem
+  · simp only [reloadByName, List.length_map, List.length_append, List.length_replicate]; omega
+  · intro i h1 h2
+    simp only [reloadByName, List.length_map] at h1
+    simp only [reloadByName, List.getElem_map]
+    rw [lastNamed_nodup names a i h1 hn]
+    have := getD_append_none a (names.length - a.length) i
+    rw [← this, List.getD_eq_getElem?_getD, List.getElem?_eq_getElem h2]
+    rfl
+
+theorem slotRun_byName_eq (h : List SPiece) : ∀ (names : List Nat) (a : Slots) (vs : List Int),
+    a.length = names.length → scopedFrom names.length h = true → (names ++ allDecls h).Nodup →
+    slotRun reloadByName names (a, vs) h = slotRun reloadBySlot names (a, vs) h := by
+  induction h with
+  | nil => intro names a vs _ _ _; rfl
+  | cons p rest ih =>
+    intro names a vs ha hs hn
+    simp only [scopedFrom, Bool.and_eq_true] at hs
+    rw [allDecls_cons, ← List.append_assoc] at hn
+    have hn1 : (names ++ p.decls).Nodup := (List.nodup_append.mp hn).1
+    have hnl : (names ++ p.decls).length = names.length + p.decls.length := List.length_append
+    have hle : a.length ≤ (names ++ p.decls).length := by rw [hnl]; omega
+    simp only [slotRun]
+    rw [reloadByName_eq_of_nodup _ a hn1 hle]
+    have hgrow := reloadBySlot_grow (names ++ p.decls) a hle
+    have hlen1 : (reloadBySlot (names ++ p.decls) a).length = names.length + p.decls.length := by
+      rw [hgrow, List.length_append, List.length_replicate, hnl]; omega
+    have hsc : p.stmts.all (·.scoped (reloadBySlot (names ++ p.decls) a).length) = true := by rw [hlen1]; exact hs.1
+    have hlen2 := (execS_pad p.stmts (reloadBySlot (names ++ p.decls) a) vs 0 hsc).2
+    exact ih (names ++ p.decls) _ _ (hlen2.trans (hlen1.trans hnl.symm)) (by rw [hnl]; exact hs.2) hn
+
 end Risor.C18
